@@ -54,7 +54,7 @@ func AddrIn(scope string, host byte) Addr {
 // The password the credential corresponds to ("" with ok=false if none can verify) is returned.
 func GenAuthenticator(t *rapid.T, name string, kc map[string]string) (*Authenticator, string) {
 	pw := rapid.SampledFrom(Passwords).Draw(t, "password")
-	switch rapid.IntRange(0, 11).Draw(t, "authn_variant") {
+	switch rapid.IntRange(0, 13).Draw(t, "authn_variant") {
 	case 0:
 		return nil, ""
 	case 1:
@@ -73,6 +73,13 @@ func GenAuthenticator(t *rapid.T, name string, kc map[string]string) (*Authentic
 		return &Authenticator{Type: AuthnSHA512, Options: map[string]string{"hash": Hashes[pw]}}, ""
 	case 6:
 		return &Authenticator{Type: 99}, ""
+	case 7:
+		// valid hex, but what it decodes to is no bcrypt hash
+		return &Authenticator{Type: AuthnBcrypt, Options: map[string]string{"hash": rapid.SampledFrom([]string{"2432", "636973636f", "243261243034", Hashes[pw][:60]}).Draw(t, "bad_hash")}}, ""
+	case 8:
+		// the keychain answers, but not with a bcrypt hash (the reference main.go's keychain returns "cisco")
+		kc[name] = "636973636f"
+		return &Authenticator{Type: AuthnBcrypt, Options: map[string]string{"key": name}}, ""
 	default:
 		return BcryptAuth(pw), pw
 	}
@@ -138,11 +145,13 @@ func GenWorld(t *rapid.T) World {
 	n := rapid.IntRange(1, 5).Draw(t, "nusers")
 	for i := 0; i < n; i++ {
 		u := User{Name: rapid.SampledFrom(UserNames).Draw(t, "user_name")}
-		switch rapid.IntRange(0, 5).Draw(t, "user_scopes") {
+		switch rapid.IntRange(0, 6).Draw(t, "user_scopes") {
 		case 0:
 			u.Scopes = []string{ScopeB}
 		case 1:
 			u.Scopes = []string{ScopeA, ScopeB}
+		case 6:
+			u.Scopes = []string{ScopeB, ScopeA} // not in the order of the secret configurations
 		case 2:
 			u.Scopes = nil
 		default:
